@@ -310,6 +310,10 @@ namespace
                     o["lptr"] = true;
                 if (BO->getRHS()->getType()->isPointerType())
                     o["rptr"] = true;
+                // arithmetic carried out in an unsigned type: a subtraction can wrap
+                if (BO->isAdditiveOp() && !BO->getType()->isDependentType()
+                    && BO->getType()->isUnsignedIntegerType())
+                    o["uns"] = true;
                 return std::move(o);
             }
             if (auto* CO = dyn_cast<ConditionalOperator>(E))
